@@ -537,7 +537,9 @@ def _borrowed(modname, fname):
 # "a batch consisting only of notifications gets no reply": over WebSocket the reply write is gated by the response kind
 # (C01.R3) - RpcService::batch signals "no reply" with MethodResponse::notification()
 # a batch POSTed to a path the GET-proxy serves must still be executed entry by entry: the proxy rewrites GET only (C19.R6)
-BORROWED = [_borrowed("c01", "r3_ws_reply_once"), _borrowed("c19", "r6_proxy_rewrites_only_what_it_proxies")]
+# a batch is recognised as a batch by both transports alike (= C01.R6); a blocking entry that panics is answered, it does not
+# take the replies collected so far with it (= C01.R5)
+BORROWED = [_borrowed("c01", "r6_transport_agreement"), _borrowed("c01", "r5_failure_classes"), _borrowed("c01", "r3_ws_reply_once"), _borrowed("c19", "r6_proxy_rewrites_only_what_it_proxies")]
 
 
 def r10_single_and_entry_decoders_are_twins(ctx):
